@@ -58,7 +58,12 @@ static size_t h7(size_t k, size_t m) { logcall(7, k, m); return k % 4 == 3 ? m :
 static size_t h8(size_t k, size_t m) { logcall(8, k, m); return k % 4 == 3 ? m + 1 : modm(k, m); }
 static size_t h9(size_t k, size_t m) { logcall(9, k, m); return k % 4 == 3 ? SIZE_MAX : modm(k, m); }
 
-static cstl_hash_func_t * const fns[] = { cstl_hash_mul, h1, h2, h3, h4, h5, h6, h7, h8, h9 };
+/* functions whose misbehaviour depends on the table size they are asked about: fine for the
+ * size they were installed with, out of range after a resize that keeps the function */
+static size_t h10(size_t k, size_t m) { logcall(10, k, m); (void)m; return k % 8; }
+static size_t h11(size_t k, size_t m) { logcall(11, k, m); return m >= 4 ? modm(k, m) : (k % 2 ? m : 0); }
+static size_t h12(size_t k, size_t m) { logcall(12, k, m); return m <= 4 ? modm(k, m) : (k % 4 == 3 ? m + 1 : modm(k, m)); }
+static cstl_hash_func_t * const fns[] = { cstl_hash_mul, h1, h2, h3, h4, h5, h6, h7, h8, h9, h10, h11, h12 };
 #define NFN ((int)(sizeof(fns) / sizeof(fns[0])))
 
 static int fn_id(cstl_hash_func_t * f)
